@@ -1,7 +1,7 @@
 CONSTANTS Labels = {1, 2}
   MaxIds = 3
   MaxBuffer = 2
-  Sem = "CO"
+  Sem = "PR"
   StaleCertificate = FALSE
   ReissueRule = "code"
 SPECIFICATION Spec
